@@ -1,4 +1,7 @@
 import XlModel.Lemmas.Save3
+import XlModel.Lemmas.SaveCols
+import XlModel.Lemmas.Grid4
+import XlModel.Generated.FactsC01
 /-!
 # C02 — saving is observationally pure and repeatable
 
@@ -273,6 +276,42 @@ theorem save_twice_same_workbook (wb : WB) (b : Spec.Book) (h : Sim wb b) :
 /-- the histories of the quantifier start here: NewFile is related to the one-sheet book -/
 theorem sim_newFile : Sim newFile Spec.newFile :=
   All2.cons (Or.inl ⟨⟨[]⟩, rfl, wf_empty, abs_empty⟩) All2.nil
+
+/-! ## the other in-place normalisations of `workSheetWriter`: `<cols>` and merged ranges
+
+These two steps are modelled by C01 (`XlModel.SaveCols`) and C03 (`XlModel.Grid`), each tied to the
+code by its own facts and transcript; here they are stated as clauses of *save purity*. -/
+
+/-- `mergeExpandedCols` still compares all ten `xlsxCol` fields of a column definition with its
+predecessor shifted by one column (regenerated by C01's extractor): dropping `Style` (or any other
+field) from the comparison — the seeded change C02a/1 — breaks this obligation. -/
+theorem facts_cols_compare_all_fields :
+    Facts.C01.mergeColsFields = ["BestFit", "Collapsed", "CustomWidth", "Hidden", "Max", "Min",
+      "OutlineLevel", "Phonetic", "Style", "Width"] ∧ Facts.C01.mergeColsMaxFromLastMin = true := by decide
+
+/-- (save is pure on column definitions) what `workSheetWriter` → `mergeExpandedCols` leaves in the
+cached worksheet resolves every column — any of the 16384 — to the same width, style, visibility,
+outline level and remaining attributes as before the save, for every flat `<cols>` list (one entry per
+column, the form every column setter leaves), of any length. -/
+theorem save_cols_pure (lo : Nat) (l : List SaveCols.Col) (h : SaveCols.FlatFrom lo l) (c : Nat) :
+    SaveCols.look (SaveCols.mergeCols l) c = SaveCols.look l c := by
+  unfold SaveCols.mergeCols
+  rw [SaveCols.sortCols_flat lo l h]
+  exact SaveCols.look_mergeSorted lo l h c
+
+/-- (save is pure on merged ranges that do not overlap) `workSheetWriter` → `mergeOverlapCells`
+(flatMergedCells with its pointer matrix and in-place rect mutation, then the selection pass) is the
+identity on every list of valid, pairwise disjoint merged ranges: same entries, same order, same `Ref`. -/
+theorem save_merges_pure_on_disjoint (ms : List Grid.MObj) (h : Grid.PairwiseDisjoint ms) :
+    Grid.mergeOverlapCells ms = ms := Grid.mergeOverlap_id ms h
+
+/-- (finding, open: `twin:overlapping-merges-normalised-at-save`) on two intersecting ranges
+(`D3:D4` then `C2:D3`, the witness of the oracle) the save is *not* the identity: it replaces them by
+the one range `C2:D4`, so `mergeCellsParser` redirects a later write into the overlap to another cell. -/
+theorem finding_overlapping_merges_normalised :
+    let ms : List Grid.MObj := [⟨⟨4, 3, 4, 4⟩, ⟨4, 3, 4, 4⟩⟩, ⟨⟨3, 2, 4, 3⟩, ⟨3, 2, 4, 3⟩⟩]
+    Grid.mergeOverlapCells ms ≠ ms ∧ (Grid.mergeOverlapCells ms).map (·.ref) = [⟨3, 2, 4, 4⟩] := by
+  decide
 
 /-! ## an open finding that the history theorem's hypothesis `HistOk` stands for -/
 
